@@ -41,6 +41,7 @@ var compoundRedirs = [][]string{nil, {">", "f"}, {"<<E"}, {"2>", "f", "<", "f"}}
 var leafCommands = [][]string{
 	{"a"}, {"a", "b"}, {"x=1"}, {"x=1", "a"}, {">", "f", "a"}, {"a", ">", "f"}, {"2>", "f", "a", "b"}, {"a", "<<E"}, {"x=1", ">", "f", "a", "b", "<", "f"},
 	{"x=", "x=1", "a"}, {"a", "<<E", "<<F"}, {"<<-E", "a"},
+	{"a", "'q\né'"}, {"a", "$(b\nc)", "b"}, {"a", "<<E", "a\\\nb"}, {"((1 +\n2))"},
 }
 
 // list forms over two leaves
@@ -132,6 +133,24 @@ func derivations(thorough bool, f func(name string, ss []string)) {
 						lists[h] = lf
 						f("D1", fill(t, lists, defW))
 					}
+				}
+			}
+		}
+	}
+	// DH: a here-document earlier on the line, then a compound command whose holes hold each leaf
+	// (here-documents in conditions and bodies, multi-line words) — the printer has to interleave the bodies
+	for _, t := range compoundTemplates {
+		nl := countHoles(t, "@L")
+		for h := 0; h < nl; h++ {
+			for _, leaf := range leaves {
+				lists := make([][]string, nl)
+				for q := range lists {
+					lists[q] = []string{"a"}
+				}
+				lists[h] = leaf
+				in := fill(t, lists, defW)
+				for _, pre := range [][]string{{"a", "<<F", "|"}, {"a", "<<F", "&&"}, {"a", "<<F", ";"}, {"{", "a", ";", "}", "<<F", "|"}} {
+					f("DH", append(append([]string{}, pre...), in...))
 				}
 			}
 		}
@@ -229,6 +248,10 @@ func derivations(thorough bool, f func(name string, ss []string)) {
 		f("W", []string{"for", "x", "in", wd, "b", ";", "do", "a", ";", "done"})
 		f("W", []string{"for", "x", "in", "a", wd, ";", "do", "a", ";", "done"})
 		f("W", []string{"case", wd, "in", "a", ")", "a", ";;", "esac"})
+		// name positions: the model decides whether the word is a Name (for variable, function name)
+		f("WN", []string{"for", wd, "in", "a", ";", "do", "a", ";", "done"})
+		f("WN", []string{"for", wd, ";", "do", "a", ";", "done"})
+		f("WN", []string{wd, "(", ")", "{", "a", ";", "}"})
 		if wd != "esac" {
 			f("W", []string{"case", "a", "in", wd, ")", "a", ";;", "esac"})
 			f("W", []string{"case", "a", "in", "a", "|", wd, ")", "a", ";;", "esac"})
